@@ -678,6 +678,12 @@ class Predicate(metaclass=abc.ABCMeta):
             self._items: typing.Mapping['dsl.Table', 'dsl.Predicate'] = {s.pop(): p for p, s in items.items()}
 
         @classmethod
+        def of(cls, operand: 'dsl.Operable') -> 'dsl.Predicate.Factors':
+            """Factors of a boolean operand - plain boolean features (e.g. a boolean column) are not predicates
+            and have none."""
+            return operand.factors if isinstance(operand, Predicate) else cls()
+
+        @classmethod
         def merge(
             cls,
             left: 'dsl.Predicate.Factors',
@@ -773,7 +779,7 @@ class And(Logical, Infix):
 
     @functools.cached_property
     def factors(self: 'And') -> 'dsl.Predicate.Factors':
-        return self.left.factors & self.right.factors
+        return Predicate.Factors.of(self.left) & Predicate.Factors.of(self.right)
 
 
 class Or(Logical, Infix):
@@ -783,7 +789,7 @@ class Or(Logical, Infix):
 
     @functools.cached_property
     def factors(self: 'Or') -> 'dsl.Predicate.Factors':
-        return self.left.factors | self.right.factors
+        return Predicate.Factors.of(self.left) | Predicate.Factors.of(self.right)
 
 
 class Not(Logical, Prefix):
